@@ -232,3 +232,20 @@ if not TYPE_CHECKING and PYTHON_BEFORE_39:
     classmethod = _ClassMethodWorkaround  # noqa
 else:
     classmethod = builtins.classmethod  # noqa
+
+
+def get_func_name(function: Callable[..., Any]) -> str:
+    """
+    Returns a name for `function` that can be used in log messages and names.
+
+    Not every callable has a `__name__` (a `functools.partial` object or an
+    instance with an `async def __call__` method does not); for a partial the
+    name of the wrapped function is used, otherwise the name of the class.
+    """
+    name = getattr(function, "__name__", None)
+    if isinstance(name, str):
+        return name
+    wrapped = getattr(function, "func", None)
+    if wrapped is not None and wrapped is not function:
+        return get_func_name(wrapped)
+    return function.__class__.__name__
